@@ -152,7 +152,14 @@ double Integrate_Gauss_Legendre(std::function<double(double)> func, std::vector<
 {
 	std::vector<double> function_values(roots_and_weights.size(), 0.0);
 	for(unsigned int i = 0; i < roots_and_weights.size(); i++)
+	{
+		if(roots_and_weights[i].size() != 2)
+		{
+			std::cerr << "libphysica::Integrate_Gauss_Legendre(): every row of roots_and_weights must hold one root and one weight." << std::endl;
+			std::exit(EXIT_FAILURE);
+		}
 		function_values[i] = func(roots_and_weights[i][0]);
+	}
 	return Integrate_Gauss_Legendre(function_values, roots_and_weights);
 }
 
@@ -165,7 +172,14 @@ double Integrate_Gauss_Legendre(std::vector<double> function_values, std::vector
 	}
 	double integral = 0.0;
 	for(unsigned int i = 0; i < function_values.size(); i++)
+	{
+		if(roots_and_weights[i].size() != 2)
+		{
+			std::cerr << "libphysica::Integrate_Gauss_Legendre(): every row of roots_and_weights must hold one root and one weight." << std::endl;
+			std::exit(EXIT_FAILURE);
+		}
 		integral += function_values[i] * roots_and_weights[i][1];
+	}
 	return integral;
 }
 
